@@ -73,6 +73,7 @@ type Exec struct {
 	effBusy      map[*ssa.Function]bool
 	curPos       token.Pos
 	prevTop      string
+	allocBase    string // when set: the allocation top that allocated() compares against (call sites)
 	guards       []string
 	nret         int
 	clauseFn     *ssa.Function // function whose contract clauses are being instantiated (free variables by name)
